@@ -1,7 +1,7 @@
 /-
 C28 — STORE admission enforces size, TTL, PoW and an unforgeable rate limit.
 
-`admit` / `admit_connection`: an OK_STORE reply implies PAYLOAD-LENGTH present, payload within the
+`admit_request` / `admit_connection`: an OK_STORE reply implies PAYLOAD-LENGTH present, payload within the
 cap, TTL (header value reinterpreted as int64 seconds, or the default) inside [min, max], and -- when
 store PoW is enabled -- a STORE-POW nonce for which `store_pow_valid(sha256(payload), size,
 sanitised PATH, nonce)` holds (`sha` is any function; the validator is C19's model).
@@ -37,7 +37,7 @@ section
 variable {ν : Type} (sha : Bytes → Bytes) (ops : NodeOps ν) (cfg : Config)
 
 /-- **C28.admit** on a parsed request -/
-theorem admit (now : Int) (addr : Bytes) (st : ServerState ν) (req : Request)
+theorem admit_request (now : Int) (addr : Bytes) (st : ServerState ν) (req : Request)
     (hok : (handleRequest sha ops cfg now addr st req).2.code = "OK_STORE") :
     Admitted sha cfg req (handleRequest sha ops cfg now addr st req).2 :=
   handleRequest_ok_store sha ops cfg now addr st req hok
@@ -63,7 +63,7 @@ theorem admit_connection (now : Int) (addr : Bytes) (st : ServerState ν) (input
     simp only [Option.some.injEq] at hr
     refine ⟨req, u, rfl, parse_payload_le_cap hp, ?_⟩
     rw [← hr] at hok ⊢
-    exact admit sha ops cfg now addr st req hok
+    exact admit_request sha ops cfg now addr st req hok
 
 end
 
